@@ -1,6 +1,7 @@
 package props
 
 import (
+	"bytes"
 	"crypto/ed25519"
 	"encoding/json"
 	"fmt"
@@ -32,11 +33,20 @@ type c09Live struct {
 	// Foreign (used by C10): instead of the mutants, every genuine message is shown to the node as posted by another
 	// registered participant S under S's own name and with S's own valid signature - the request inside still names P
 	Foreign bool `json:"foreign,omitempty"`
+	// NoKey = k > 0: the re-initialisation message gives participant k (never the observing node 0) no usable new
+	// communication key - none at all (NoKeyLen 0) or one of NoKeyLen bytes. Its old key is replaced all the same: what
+	// the hash-confirmed message registers for a sender is what counts afterwards
+	NoKey    int `json:"no_key,omitempty"`
+	NoKeyLen int `json:"no_key_len,omitempty"`
 }
 
 func c09GenLive(rt *rapid.T) c09Live {
 	nt := rapid.SampledFrom([][2]int{{2, 2}, {3, 2}}).Draw(rt, "nt")
 	p := c09Live{N: nt[0], T: nt[1], RawLog: rapid.Bool().Draw(rt, "raw")}
+	if rapid.IntRange(0, 2).Draw(rt, "noKey") == 0 {
+		p.NoKey = rapid.IntRange(1, nt[0]-1).Draw(rt, "noKeyWho")
+		p.NoKeyLen = rapid.SampledFrom([]int{0, 0, 16, 31, 33, 64}).Draw(rt, "noKeyLen")
+	}
 	k := rapid.IntRange(6, 30).Draw(rt, "nmuts")
 	for i := 0; i < k; i++ {
 		p.Muts = append(p.Muts, c09Mut{Kind: rapid.SampledFrom(c09Kinds).Draw(rt, "kind"), A: rapid.IntRange(0, 100000).Draw(rt, "a"), B: rapid.IntRange(0, 255).Draw(rt, "b")})
@@ -67,6 +77,13 @@ func c09RunLive(t *testing.T, st *vstat.Stats, p c09Live) (v *viol) {
 		newKeys := map[string][]byte{}
 		for i, nd := range w.Nodes {
 			newKeys[w.Names[i]] = nd.KeyPair.Pub
+		}
+		if p.NoKey > 0 && p.NoKey < p.N {
+			if p.NoKeyLen == 0 {
+				delete(newKeys, w.Names[p.NoKey])
+			} else {
+				newKeys[w.Names[p.NoKey]] = bytes.Repeat([]byte{0x5a}, p.NoKeyLen)
+			}
 		}
 		re, err := types.GenerateReDKGMessage(o.Log, newKeys)
 		if err != nil {
@@ -99,8 +116,37 @@ func c09RunLive(t *testing.T, st *vstat.Stats, p c09Live) (v *viol) {
 			tr.Keys = append(tr.Keys, nd.KeyPair)
 		}
 		nd := w.Nodes[0]
+		// the keys of the original ceremony are history: a message signed with a participant's old key is not a message
+		// signed with the key registered for it in this round - whether or not its new key is usable
+		oldWorld := &world.World{Seed: w.Seed}
+		oldKeyTried := 0
+		for i := 1; i < p.N; i++ {
+			oldKey := world.KeyPairFromSeed(oldWorld.HotKeySeed(i))
+			data, _ := json.Marshal(map[string]any{"BatchID": fmt.Sprintf("signed-with-the-old-key-of-%d", i), "ParticipantId": i, "CreatedAt": time.Now(),
+				"SigningTasks": []map[string]any{{"MessageID": "m", "File": "f", "Payload": []byte("p")}}})
+			before := kvSnapshot(nd)
+			perr := nd.Svc.ProcessMessage(storage.Message{DkgRoundID: round, Event: "event_signing_start", Data: data, SenderAddr: w.Names[i], Signature: ed25519.Sign(oldKey.Priv, data)})
+			changed := existingStateChanged(before, kvSnapshot(nd))
+			if perr == nil || len(changed) > 0 {
+				kind := "old-key"
+				if i == p.NoKey {
+					kind = "old-key-of-participant-without-usable-new-key"
+				}
+				v = violf("accepted-after-reinit:"+kind, "node that processed a re-initialisation (raw log=%v; new key of participant %d: %d bytes): a signing proposal in the name of %s signed with the communication key it had in the original ceremony was processed (err=%v, changed %v)", p.RawLog, p.NoKey, p.NoKeyLen, w.Names[i], perr, changed)
+				return
+			}
+			oldKeyTried++
+		}
+		st.ClassN("live-old-key-refused", oldKeyTried)
+		if p.NoKey > 0 {
+			st.Class(fmt.Sprintf("live:participant-without-usable-new-key:%d-bytes", p.NoKeyLen))
+		}
 		// a genuine proposal by participant 1, then genuine partial signatures: each is first shown to node 0 as mutants
-		if err := w.ProposeBatch(1%p.N, round, map[string][]byte{"doc": []byte("after reinit")}); err != nil {
+		proposer := 1 % p.N
+		if proposer == p.NoKey {
+			proposer = 0 // (the participant without a usable key cannot speak in this round)
+		}
+		if err := w.ProposeBatch(proposer, round, map[string][]byte{"doc": []byte("after reinit")}); err != nil {
 			v = violf("harness", "propose: %v", err)
 			return
 		}
